@@ -51,7 +51,7 @@ def configs(tier):
     gl = ['P3', 'S3', 'paw', 'K3', 'irr5', 'paw+K1'] + (['P4', 'C4', 'K4', 'T5'] if tier == 'thorough' else [])
     for g in gl:
         n = graphs.ALL[g][0]
-        ics = [('rho', None, None), ('sets', [0], []), ('sets', [1], [n - 1])]
+        ics = [('rho', None, None), ('sets', [0], []), ('sets', [1], [n - 1]), ('sets', [n - 1], [0])]      # (recovered node listed first / last in G.edges())
         if tier == 'thorough' and n >= 4:
             ics.append(('sets', [0, 1], [2]))      # (needs a susceptible node left: closures divide by susceptible counts)
         if n >= 4:
